@@ -25,7 +25,7 @@ import (
 
 func TestMain(m *testing.M) {
 	document.SetGlobalLevel(document.LogLevelSilent)
-	kit.TestMain(m, 1000, 10000)
+	kit.TestMain(m, 600, 6000)
 }
 
 // Case: a document built by a history of API calls, then Cycles save/open cycles.
@@ -44,19 +44,19 @@ var weights = map[string]int{
 	"math": 1, "mathlatex": 1, "inlinemath": 1, "toc": 1,
 	// paragraph setters
 	"align": 3, "spacing": 3, "indent": 3, "keepnext": 2, "keeplines": 2, "pbb": 2, "widow": 2, "outline": 2, "snap": 2, "pstyle": 2,
-	"hrule": 1, "pborder": 2, "pformat": 4,
+	"hrule": 2, "pborder": 2, "pformat": 4,
 	// run level
-	"addtext": 6, "ppagebreak": 2, "pbold": 1, "pitalic": 1, "punderline": 1, "pstrike": 1, "phighlight": 1, "pfont": 1, "psize": 1, "pcolor": 1,
+	"addtext": 6, "ppagebreak": 2, "pbold": 2, "pitalic": 1, "punderline": 2, "pstrike": 1, "phighlight": 2, "pfont": 2, "psize": 2, "pcolor": 2,
 	// tables
-	"table": 14, "celltext": 5, "cellftext": 2, "celladdtext": 2, "cellpara": 2, "cellfpara": 2, "celllist": 1, "cellfmt": 2, "cellfmtdir": 1, "cellimg": 1,
-	"nested": 2, "nestedh": 3, "insrow": 1, "approw": 1, "delrow": 1, "inscol": 1, "appcol": 1, "delcol": 1,
-	"mergeh": 3, "mergev": 3, "merger": 3, "unmerge": 1, "rowheight": 2, "rowheightrange": 1, "rowheader": 2, "headerrows": 1, "rowkeep": 1,
-	"tblstyle": 1, "tblborders": 1, "tblshading": 1, "cellshading": 1, "altrows": 1, "celldir": 2, "cellpad": 1, "cellborders": 2, "tblalign": 1,
+	"table": 18, "celltext": 5, "cellftext": 2, "celladdtext": 2, "cellpara": 2, "cellfpara": 2, "celllist": 2, "cellfmt": 2, "cellfmtdir": 1, "cellimg": 1,
+	"nested": 2, "nestedh": 6, "insrow": 2, "approw": 1, "delrow": 2, "inscol": 2, "appcol": 1, "delcol": 2,
+	"mergeh": 6, "mergev": 4, "merger": 4, "unmerge": 2, "rowheight": 2, "rowheightrange": 2, "rowheader": 2, "headerrows": 2, "rowkeep": 2,
+	"tblstyle": 2, "tblborders": 2, "tblshading": 2, "cellshading": 2, "altrows": 1, "celldir": 2, "cellpad": 1, "cellborders": 2, "tblalign": 2,
 	"rmtblborders": 1, "rmcellborders": 1, "clearcell": 1, "clearcellfmt": 1, "clearcellparas": 1,
 	// pictures
-	"image": 4, "imagefile": 1, "imagefloat": 4, "imgalt": 1, "imgtitle": 1, "imgalign": 1,
+	"image": 4, "imagefile": 1, "imagefloat": 4, "imgalt": 2, "imgtitle": 2, "imgalign": 2,
 	// section
-	"pagesize": 1, "custompage": 1, "orient": 1, "margins": 1, "hfdist": 1, "gutter": 1, "docgrid": 1, "cleargrid": 1,
+	"pagesize": 1, "custompage": 2, "orient": 2, "margins": 3, "hfdist": 2, "gutter": 2, "docgrid": 1, "cleargrid": 1,
 	"header": 1, "footer": 1, "headerpn": 1, "footerpn": 1, "fheader": 1, "ffooter": 1, "difffirst": 1,
 	// body edits
 	"rmpara": 1, "rmparaat": 1, "rmelemat": 1,
@@ -894,7 +894,7 @@ func TestC03(t *testing.T) {
 			"the main part is compared through the harness's canonical XML reader; absent == empty only for w:pPr/w:rPr/w:tcPr/w:trPr/w:tblPr, xml:space ignored on empty w:t, namespace declarations ignored",
 			"a history in which an API call panics, or whose first save fails, is discarded (judged by C09/C01/C05)",
 		},
-		MustSee: map[string]float64{"feat:nested-table": 0.1, "feat:run-break": 0.1, "feat:floating-picture": 0.1, "cycles>=3": 0.3, "feat:merge-h": 0.1, "feat:merge-v": 0.05,
+		MustSee: map[string]float64{"feat:nested-table": 0.08, "feat:run-break": 0.1, "feat:floating-picture": 0.1, "cycles>=3": 0.3, "feat:merge-h": 0.08, "feat:merge-v": 0.05,
 			"op:align": 0.05, "op:spacing": 0.05, "op:indent": 0.05, "op:keepnext": 0.03, "op:keeplines": 0.03, "op:pbb": 0.03, "op:widow": 0.03, "op:outline": 0.03,
 			"op:snap": 0.03, "op:pstyle": 0.03, "op:pborder": 0.03, "op:pformat": 0.05, "feat:edge-whitespace-text": 0.2, "feat:non-ascii-text": 0.2},
 		Fixed: fixedCases,
